@@ -1,3 +1,800 @@
-//! verif harness entry for relayer_write (compiled into the repo crate under cfg(all(test, feature = "verif"))).
+//! Trace-recording harness for spec/Relayer.tla, compiled into `astria_sequencer_relayer::relayer::write`.
+//!
+//! `crash_scenarios`: the real `Relayer::run` (reader, submitter, state file) runs against an in-process Celestia app
+//! (gRPC: node info, account, params, gas price, BroadcastTx, GetTx), an in-process sequencer (gRPC GetSequencerBlock) and
+//! a wiremock CometBFT RPC.  A scenario scripts what Celestia does with each BlobTx (lost / accepted, what the relayer
+//! is told, when it is included) and where the relayer process is killed.  A "process" is one tokio runtime with a
+//! paused clock; killing it is dropping the runtime, so nothing of the relayer survives but its state file.  Every RPC
+//! that reaches Celestia and every write of the state file (hook `state_file_written`, called by
+//! `submission::State::write` after the rename) is appended to one event log, which the check validates against the
+//! specification with TLC.
+#![allow(clippy::all, clippy::pedantic)]
+use std::{
+    collections::HashMap,
+    path::PathBuf,
+    sync::{
+        Arc,
+        Mutex,
+        OnceLock,
+    },
+    time::Duration,
+};
+
+use astria_core::{
+    generated::{
+        astria::sequencerblock::v1::{
+            sequencer_service_server::{
+                SequencerService,
+                SequencerServiceServer,
+            },
+            FilteredSequencerBlock as RawFilteredSequencerBlock,
+            GetFilteredSequencerBlockRequest,
+            GetPendingNonceRequest,
+            GetPendingNonceResponse,
+            GetSequencerBlockRequest,
+            SequencerBlock as RawSequencerBlock,
+            SubmittedMetadataList,
+        },
+        celestia::v1::{
+            query_server::{
+                Query as BlobQueryService,
+                QueryServer as BlobQueryServer,
+            },
+            Params as BlobParams,
+            QueryParamsRequest as QueryBlobParamsRequest,
+            QueryParamsResponse as QueryBlobParamsResponse,
+        },
+        cosmos::{
+            auth::v1beta1::{
+                query_server::{
+                    Query as AuthQueryService,
+                    QueryServer as AuthQueryServer,
+                },
+                BaseAccount,
+                Params as AuthParams,
+                QueryAccountRequest,
+                QueryAccountResponse,
+                QueryParamsRequest as QueryAuthParamsRequest,
+                QueryParamsResponse as QueryAuthParamsResponse,
+            },
+            base::{
+                abci::v1beta1::TxResponse,
+                node::v1beta1::{
+                    service_server::{
+                        Service as MinGasPriceService,
+                        ServiceServer as MinGasPriceServer,
+                    },
+                    ConfigRequest as MinGasPriceRequest,
+                    ConfigResponse as MinGasPriceResponse,
+                },
+                tendermint::v1beta1::{
+                    service_server::{
+                        Service as NodeInfoService,
+                        ServiceServer as NodeInfoServer,
+                    },
+                    GetNodeInfoRequest,
+                    GetNodeInfoResponse,
+                },
+            },
+            tx::v1beta1::{
+                service_server::{
+                    Service as TxService,
+                    ServiceServer as TxServer,
+                },
+                BroadcastTxRequest,
+                BroadcastTxResponse,
+                GetTxRequest,
+                GetTxResponse,
+            },
+        },
+        sequencerblock::v1::{
+            GetUpgradesInfoRequest,
+            GetUpgradesInfoResponse,
+            GetValidatorNameRequest,
+            GetValidatorNameResponse,
+        },
+        tendermint::{
+            p2p::DefaultNodeInfo,
+            types::BlobTx,
+        },
+    },
+    primitive::v1::RollupId,
+    protocol::test_utils::ConfigureSequencerBlock,
+    sequencerblock::v1::block,
+};
+use prost::{
+    Message as _,
+    Name as _,
+};
+use serde_json::{
+    json,
+    Value,
+};
+use tonic::{
+    Request,
+    Response,
+    Status,
+};
+
+#[path = "/verif/harness/common/io.rs"]
+mod io;
+
+const SEQUENCER_CHAIN_ID: &str = "test-sequencer-0";
+const CELESTIA_CHAIN_ID: &str = "test-celestia-0";
+
+// ------------------------------------------------------------------------------------------------ the world
+
+#[derive(Default)]
+struct TxRec {
+    hash: String,
+    lo: u64,
+    hi: u64,
+    st: &'static str, // "pending" | "confirmed" | "lost"
+    include: String,  // "polls:k" | "never" | "on_crash" | "on_next_prepare"
+    polls: u64,
+    height: i64,
+}
+
+#[derive(Default)]
+struct World {
+    events: Vec<Value>,
+    head: u64,
+    session: u64,
+    stop: bool,
+    /// time is up for this process: kill it at the next RPC that reaches Celestia (an instant at which no write of
+    /// the state file can be under way, so that every write that happened is in the log)
+    kill_next: bool,
+    last_file: Value,
+    stop_reason: Value,
+    script: Value,
+    rpc_counts: HashMap<&'static str, u64>,
+    broadcasts: u64,
+    txs: Vec<TxRec>,
+    celestia_height: i64,
+}
+
+fn world() -> &'static Arc<Mutex<World>> {
+    static W: OnceLock<Arc<Mutex<World>>> = OnceLock::new();
+    W.get_or_init(|| Arc::new(Mutex::new(World::default())))
+}
+
+fn file_json(contents: &str) -> Value {
+    match serde_json::from_str::<Value>(contents) {
+        Ok(v) => {
+            let k = v["state"].as_str().unwrap_or("?").to_string();
+            json!({
+                "k": k,
+                "last": v["last_submission"]["sequencer_height"].as_u64().unwrap_or(0),
+                "h": v["sequencer_height"].as_u64().unwrap_or(0),
+                "tx": v["blob_tx_hash"].as_str().unwrap_or("").to_lowercase(),
+            })
+        }
+        Err(_) => json!({"k": "torn", "last": 0, "h": 0, "tx": ""}),
+    }
+}
+
+/// Called by `submission::State::write` (cfg(all(test, feature = "verif"))) once the new content is in place.
+pub(in crate::relayer) fn state_file_written(contents: &str, ok: bool) {
+    let mut w = world().lock().unwrap();
+    let f = file_json(contents);
+    w.last_file = f.clone();
+    w.events.push(json!({"ev": "file", "file": f, "ok": ok}));
+}
+
+impl World {
+    /// Counts an RPC of `kind` in this session and tells whether the script kills the relayer here.
+    fn crash_here(&mut self, kind: &'static str, phase: &str) -> bool {
+        let n = if phase == "before" {
+            let c = self.rpc_counts.entry(kind).or_insert(0);
+            *c += 1;
+            *c
+        } else {
+            *self.rpc_counts.get(kind).unwrap_or(&0)
+        };
+        let s = &self.script["sessions"][self.session as usize]["crash"];
+        let hit = (s["at"] == kind && s["n"].as_u64() == Some(n) && s["phase"] == phase) || (self.kill_next && phase == "before");
+        if hit && !self.stop {
+            // the driver kills the process as soon as it sees this; the RPC is never answered
+            self.stop = true;
+            let why = if self.kill_next { "time-up" } else { "script" };
+            self.stop_reason = json!({"at": kind, "phase": phase, "why": why});
+        }
+        hit
+    }
+
+    fn include(&mut self, i: usize) {
+        if self.txs[i].st == "pending" {
+            self.celestia_height += 1;
+            self.txs[i].st = "confirmed";
+            self.txs[i].height = self.celestia_height;
+            let hash = self.txs[i].hash.clone();
+            self.events.push(json!({"ev": "include", "tx": hash}));
+        }
+    }
+}
+
+/// Never answers: the relayer is being killed at this RPC.
+async fn withhold<T>() -> Result<Response<T>, Status> {
+    std::future::pending::<()>().await;
+    unreachable!()
+}
+
+// ------------------------------------------------------------------------------------------------ Celestia app
+
+#[derive(Clone)]
+struct CelestiaApp;
+
+#[tonic::async_trait]
+impl NodeInfoService for CelestiaApp {
+    async fn get_node_info(
+        self: Arc<Self>,
+        _request: Request<GetNodeInfoRequest>,
+    ) -> Result<Response<GetNodeInfoResponse>, Status> {
+        let kill = world().lock().unwrap().crash_here("nodeinfo", "before");
+        if kill {
+            return withhold().await;
+        }
+        Ok(Response::new(GetNodeInfoResponse {
+            default_node_info: Some(DefaultNodeInfo {
+                network: CELESTIA_CHAIN_ID.to_string(),
+                ..Default::default()
+            }),
+            ..Default::default()
+        }))
+    }
+}
+
+#[tonic::async_trait]
+impl AuthQueryService for CelestiaApp {
+    async fn account(
+        self: Arc<Self>,
+        request: Request<QueryAccountRequest>,
+    ) -> Result<Response<QueryAccountResponse>, Status> {
+        let kill = {
+            let mut w = world().lock().unwrap();
+            w.events.push(json!({"ev": "rpc_prepare"}));
+            // a new attempt to submit begins: the relayer has given up on whatever it was waiting for, and only now
+            // does Celestia include that
+            for i in 0..w.txs.len() {
+                if w.txs[i].include == "on_next_prepare" {
+                    w.include(i);
+                }
+            }
+            w.crash_here("prepare", "before")
+        };
+        if kill {
+            return withhold().await;
+        }
+        // the account's sequence number moves with every included transaction, as on a real chain
+        let included = world().lock().unwrap().txs.iter().filter(|t| t.st == "confirmed").count() as u64;
+        let account = BaseAccount {
+            address: request.into_inner().address,
+            pub_key: None,
+            account_number: 10,
+            sequence: 53 + included,
+        };
+        Ok(Response::new(QueryAccountResponse {
+            account: Some(pbjson_types::Any {
+                type_url: BaseAccount::type_url(),
+                value: account.encode_to_vec().into(),
+            }),
+        }))
+    }
+
+    async fn params(
+        self: Arc<Self>,
+        _request: Request<QueryAuthParamsRequest>,
+    ) -> Result<Response<QueryAuthParamsResponse>, Status> {
+        Ok(Response::new(QueryAuthParamsResponse {
+            params: Some(AuthParams {
+                max_memo_characters: 256,
+                tx_sig_limit: 7,
+                tx_size_cost_per_byte: 10,
+                sig_verify_cost_ed25519: 590,
+                sig_verify_cost_secp256k1: 1000,
+            }),
+        }))
+    }
+}
+
+#[tonic::async_trait]
+impl BlobQueryService for CelestiaApp {
+    async fn params(
+        self: Arc<Self>,
+        _request: Request<QueryBlobParamsRequest>,
+    ) -> Result<Response<QueryBlobParamsResponse>, Status> {
+        Ok(Response::new(QueryBlobParamsResponse {
+            params: Some(BlobParams {
+                gas_per_blob_byte: 8,
+                gov_max_square_size: 64,
+            }),
+        }))
+    }
+}
+
+#[tonic::async_trait]
+impl MinGasPriceService for CelestiaApp {
+    async fn config(
+        self: Arc<Self>,
+        _request: Request<MinGasPriceRequest>,
+    ) -> Result<Response<MinGasPriceResponse>, Status> {
+        Ok(Response::new(MinGasPriceResponse {
+            minimum_gas_price: "0.002000000000000000utia".to_string(),
+        }))
+    }
+}
+
+/// The sequencer heights a BlobTx carries, decoded the way the conductor does: the blob in the sequencer namespace
+/// is a brotli-compressed `SubmittedMetadataList`.
+fn heights_in(blob_tx: &BlobTx) -> Vec<u64> {
+    let ns = astria_core::celestia::namespace_v0_from_sha256_of_bytes(SEQUENCER_CHAIN_ID.as_bytes());
+    let mut heights = vec![];
+    for blob in &blob_tx.blobs {
+        let Ok(blob_ns) = celestia_types::nmt::Namespace::new_v0(blob.namespace_id.as_ref()) else {
+            continue;
+        };
+        if blob_ns != ns {
+            continue;
+        }
+        let Ok(raw) = astria_core::brotli::decompress_bytes(&blob.data) else {
+            continue;
+        };
+        let Ok(list) = SubmittedMetadataList::decode(&*raw) else {
+            continue;
+        };
+        for e in list.entries {
+            heights.push(e.header.map_or(0, |h| h.height));
+        }
+    }
+    heights
+}
+
+#[tonic::async_trait]
+impl TxService for CelestiaApp {
+    async fn get_tx(
+        self: Arc<Self>,
+        request: Request<GetTxRequest>,
+    ) -> Result<Response<GetTxResponse>, Status> {
+        let hash = request.into_inner().hash.to_lowercase();
+        let (kill, confirmed_at) = {
+            let mut w = world().lock().unwrap();
+            let idx = w.txs.iter().position(|t| t.hash == hash);
+            if let Some(i) = idx {
+                w.txs[i].polls += 1;
+                if w.txs[i].include == format!("polls:{}", w.txs[i].polls) {
+                    w.include(i);
+                }
+            }
+            let confirmed_at = idx.filter(|&i| w.txs[i].st == "confirmed").map(|i| w.txs[i].height);
+            w.events.push(json!({"ev": "gettx", "tx": hash,
+                                 "ans": if confirmed_at.is_some() { "confirmed" } else { "pending" }}));
+            (w.crash_here("gettx", "before"), confirmed_at)
+        };
+        if kill {
+            return withhold().await;
+        }
+        let Some(height) = confirmed_at else {
+            return Err(Status::not_found("tx not found"));
+        };
+        Ok(Response::new(GetTxResponse {
+            tx: None,
+            tx_response: Some(TxResponse {
+                height,
+                txhash: hash,
+                code: 0,
+                ..TxResponse::default()
+            }),
+        }))
+    }
+
+    async fn broadcast_tx(
+        self: Arc<Self>,
+        request: Request<BroadcastTxRequest>,
+    ) -> Result<Response<BroadcastTxResponse>, Status> {
+        let req = request.into_inner();
+        let blob_tx = BlobTx::decode(req.tx_bytes.as_ref()).map_err(|_| Status::invalid_argument("not a BlobTx"))?;
+        let hash = super::BlobTxHash::compute(&blob_tx).to_hex().to_lowercase();
+        let heights = heights_in(&blob_tx);
+        let lo = heights.first().copied().unwrap_or(0);
+        let hi = heights.last().copied().unwrap_or(0);
+        let contiguous = !heights.is_empty() && heights.windows(2).all(|p| p[1] == p[0] + 1);
+        let (kill, told) = {
+            let mut w = world().lock().unwrap();
+            if w.crash_here("broadcast", "before") {
+                // killed before the transaction left the process
+                (true, String::new())
+            } else {
+                let n = w.broadcasts as usize;
+                w.broadcasts += 1;
+                let spec = w.script["broadcasts"].get(n).cloned().unwrap_or(Value::Null);
+                let delivered = spec["delivered"].as_bool().unwrap_or(true);
+                let told = spec["told"].as_str().unwrap_or("ok").to_string();
+                let include = spec["include"].as_str().unwrap_or("polls:1").to_string();
+                // the same bytes again (a retry on an unchanged account): Celestia knows the transaction already
+                if let Some(i) = w.txs.iter().position(|t| t.hash == hash) {
+                    if delivered && w.txs[i].st == "lost" {
+                        w.txs[i].st = "pending";
+                        w.txs[i].include = include;
+                        w.txs[i].polls = 0;
+                    }
+                } else {
+                    w.txs.push(TxRec {
+                        hash: hash.clone(),
+                        lo,
+                        hi,
+                        st: if delivered { "pending" } else { "lost" },
+                        include,
+                        polls: 0,
+                        height: 0,
+                    });
+                }
+                w.events.push(json!({"ev": "broadcast", "tx": hash, "lo": lo, "hi": hi, "contiguous": contiguous,
+                                     "heights": heights, "delivered": delivered, "told": told}));
+                (w.crash_here("broadcast", "after"), told)
+            }
+        };
+        if kill {
+            return withhold().await;
+        }
+        match told.as_str() {
+            "ok" => Ok(Response::new(BroadcastTxResponse {
+                tx_response: Some(TxResponse {
+                    txhash: hash,
+                    code: 0,
+                    ..TxResponse::default()
+                }),
+            })),
+            // what the relayer takes for a timed-out request
+            "timeout" => Err(Status::cancelled("Timeout expired")),
+            _ => Err(Status::unavailable("connection reset")),
+        }
+    }
+}
+
+// ------------------------------------------------------------------------------------------------ sequencer
+
+fn rollup_id() -> RollupId {
+    RollupId::new([7; 32])
+}
+
+fn sequencer_block(h: u64) -> RawSequencerBlock {
+    ConfigureSequencerBlock {
+        block_hash: Some(block::Hash::new([h as u8; 32])),
+        chain_id: Some(SEQUENCER_CHAIN_ID.to_string()),
+        height: h as u32,
+        sequence_data: vec![(rollup_id(), format!("tx-{h}").into_bytes())],
+        unix_timestamp: (1i64, 1u32).into(),
+        ..Default::default()
+    }
+    .make()
+    .into_raw()
+}
+
+struct Sequencer;
+
+#[tonic::async_trait]
+impl SequencerService for Sequencer {
+    async fn get_sequencer_block(
+        self: Arc<Self>,
+        request: Request<GetSequencerBlockRequest>,
+    ) -> Result<Response<RawSequencerBlock>, Status> {
+        let h = request.into_inner().height;
+        let head = world().lock().unwrap().head;
+        if h == 0 || h > head {
+            return Err(Status::not_found("no such block"));
+        }
+        Ok(Response::new(sequencer_block(h)))
+    }
+
+    async fn get_filtered_sequencer_block(
+        self: Arc<Self>,
+        _request: Request<GetFilteredSequencerBlockRequest>,
+    ) -> Result<Response<RawFilteredSequencerBlock>, Status> {
+        Err(Status::unimplemented("not used"))
+    }
+
+    async fn get_pending_nonce(
+        self: Arc<Self>,
+        _request: Request<GetPendingNonceRequest>,
+    ) -> Result<Response<GetPendingNonceResponse>, Status> {
+        Err(Status::unimplemented("not used"))
+    }
+
+    async fn get_upgrades_info(
+        self: Arc<Self>,
+        _request: Request<GetUpgradesInfoRequest>,
+    ) -> Result<Response<GetUpgradesInfoResponse>, Status> {
+        Err(Status::unimplemented("not used"))
+    }
+
+    async fn get_validator_name(
+        self: Arc<Self>,
+        _request: Request<GetValidatorNameRequest>,
+    ) -> Result<Response<GetValidatorNameResponse>, Status> {
+        Err(Status::unimplemented("not used"))
+    }
+}
+
+const STATUS_RESPONSE: &str = r#"
+{
+  "node_info": {
+    "protocol_version": { "p2p": "8", "block": "11", "app": "0" },
+    "id": "a1d3bbddb7800c6da2e64169fec281494e963ba3",
+    "listen_addr": "tcp://0.0.0.0:26656",
+    "network": "test-sequencer-0",
+    "version": "0.38.6",
+    "channels": "40202122233038606100",
+    "moniker": "fullnode",
+    "other": { "tx_index": "on", "rpc_address": "tcp://0.0.0.0:26657" }
+  },
+  "sync_info": {
+    "latest_block_hash": "A4202E4E367712AC2A797860265A7EBEA8A3ACE513CB0105C2C9058449641202",
+    "latest_app_hash": "BCC9C9B82A49EC37AADA41D32B4FBECD2441563703955413195BDA2236775A68",
+    "latest_block_height": "452605",
+    "latest_block_time": "2024-05-09T15:59:17.849713071Z",
+    "earliest_block_hash": "C34B7B0B82423554B844F444044D7D08A026D6E413E6F72848DB2F8C77ACE165",
+    "earliest_app_hash": "6B776065775471CEF46AC75DE09A4B869A0E0EB1D7725A04A342C0E46C16F472",
+    "earliest_block_height": "1",
+    "earliest_block_time": "2024-04-23T00:49:11.964127Z",
+    "catching_up": false
+  },
+  "validator_info": {
+    "address": "0B46F33BA2FA5C2E2AD4C4C4E5ECE3F1CA03D195",
+    "pub_key": { "type": "tendermint/PubKeyEd25519", "value": "bA6GipHUijVuiYhv+4XymdePBsn8EeTqjGqNQrBGZ4I=" },
+    "voting_power": "0"
+  }
+}"#;
+
+/// CometBFT JSON-RPC: `status` (chain id) and `abci_info` (the chain's head).
+struct CometBft;
+
+impl wiremock::Respond for CometBft {
+    fn respond(&self, request: &wiremock::Request) -> wiremock::ResponseTemplate {
+        use tendermint_rpc::{
+            endpoint::{
+                abci_info,
+                status,
+            },
+            response::Wrapper,
+            Id,
+        };
+        let body: Value = serde_json::from_slice(&request.body).unwrap_or(Value::Null);
+        let id = match &body["id"] {
+            Value::String(s) => Id::Str(s.clone()),
+            Value::Number(n) => Id::Num(n.as_i64().unwrap_or(1)),
+            _ => Id::Num(1),
+        };
+        match body["method"].as_str() {
+            Some("status") => {
+                let resp: status::Response = serde_json::from_str(STATUS_RESPONSE).unwrap();
+                wiremock::ResponseTemplate::new(200).set_body_json(Wrapper::new_with_id(id, Some(resp), None))
+            }
+            Some("abci_info") => {
+                let head = world().lock().unwrap().head;
+                let resp = abci_info::Response {
+                    response: tendermint::abci::response::Info {
+                        data: "verif".into(),
+                        version: "1.0.0".into(),
+                        app_version: 1,
+                        last_block_height: (head as u32).into(),
+                        last_block_app_hash: tendermint::hash::AppHash::try_from([0; 32].to_vec()).unwrap(),
+                    },
+                };
+                wiremock::ResponseTemplate::new(200).set_body_json(Wrapper::new_with_id(id, Some(resp), None))
+            }
+            _ => wiremock::ResponseTemplate::new(404),
+        }
+    }
+}
+
+struct Servers {
+    celestia: String,
+    sequencer: String,
+    cometbft: String,
+}
+
+/// The three fake services live on their own thread and runtime (real time): they outlive every relayer process.
+fn spawn_servers() -> Servers {
+    let (tx, rx) = std::sync::mpsc::channel();
+    std::thread::spawn(move || {
+        let rt = tokio::runtime::Builder::new_multi_thread().worker_threads(2).enable_all().build().unwrap();
+        rt.block_on(async move {
+            use tokio_stream::wrappers::TcpListenerStream;
+            let nodelay = |l: tokio::net::TcpListener| {
+                tokio_stream::StreamExt::map(TcpListenerStream::new(l), |s| {
+                    s.map(|s| {
+                        let _ = s.set_nodelay(true);
+                        s
+                    })
+                })
+            };
+            let l1 = tokio::net::TcpListener::bind("127.0.0.1:0").await.unwrap();
+            let celestia = format!("http://{}", l1.local_addr().unwrap());
+            tokio::spawn(async move {
+                tonic::transport::Server::builder()
+                    .add_service(NodeInfoServer::new(CelestiaApp))
+                    .add_service(AuthQueryServer::new(CelestiaApp))
+                    .add_service(BlobQueryServer::new(CelestiaApp))
+                    .add_service(MinGasPriceServer::new(CelestiaApp))
+                    .add_service(TxServer::new(CelestiaApp))
+                    .serve_with_incoming(nodelay(l1))
+                    .await
+                    .unwrap();
+            });
+            let l2 = tokio::net::TcpListener::bind("127.0.0.1:0").await.unwrap();
+            let sequencer = format!("http://{}", l2.local_addr().unwrap());
+            tokio::spawn(async move {
+                tonic::transport::Server::builder()
+                    .add_service(SequencerServiceServer::new(Sequencer))
+                    .serve_with_incoming(nodelay(l2))
+                    .await
+                    .unwrap();
+            });
+            let comet = wiremock::MockServer::start().await;
+            wiremock::Mock::given(wiremock::matchers::any()).respond_with(CometBft).mount(&comet).await;
+            tx.send(Servers {
+                celestia,
+                sequencer,
+                cometbft: comet.uri(),
+            })
+            .unwrap();
+            std::future::pending::<()>().await;
+        });
+    });
+    rx.recv().unwrap()
+}
+
+// ------------------------------------------------------------------------------------------------ the relayer process
+
+fn metrics() -> &'static crate::metrics::Metrics {
+    static M: OnceLock<&'static crate::metrics::Metrics> = OnceLock::new();
+    M.get_or_init(|| {
+        let m = <crate::metrics::Metrics as telemetry::Metrics>::noop_metrics(&()).unwrap();
+        Box::leak(Box::new(m))
+    })
+}
+
+/// One life of the relayer process: from start until the script kills it, it has relayed everything, or (virtual)
+/// time is up.
+fn run_session(servers: &Servers, dir: &PathBuf, limit_virtual_secs: u64) -> String {
+    let state_path = dir.join("submission-state.json");
+    let key_path = dir.join("celestia.key");
+    let rt = tokio::runtime::Builder::new_current_thread().enable_all().start_paused(true).build().unwrap();
+    let outcome = rt.block_on(async {
+        let relayer = super::super::Builder {
+            relayer_shutdown_token: tokio_util::sync::CancellationToken::new(),
+            sequencer_chain_id: SEQUENCER_CHAIN_ID.to_string(),
+            celestia_chain_id: CELESTIA_CHAIN_ID.to_string(),
+            celestia_default_min_gas_price: 0.002,
+            celestia_app_grpc_endpoint: servers.celestia.clone(),
+            celestia_app_key_file: key_path.display().to_string(),
+            cometbft_endpoint: servers.cometbft.clone(),
+            sequencer_poll_period: Duration::from_millis(500),
+            sequencer_grpc_endpoint: servers.sequencer.clone(),
+            rollup_filter: crate::IncludeRollup::parse("").unwrap(),
+            submission_state_path: state_path.clone(),
+            metrics: metrics(),
+        }
+        .build()
+        .unwrap();
+        let handle = tokio::spawn(relayer.run());
+        let start = tokio::time::Instant::now();
+        loop {
+            for _ in 0..32 {
+                tokio::task::yield_now().await;
+            }
+            // real time for the loopback round trips; the virtual clock runs ~300x faster than the wall clock
+            std::thread::sleep(Duration::from_micros(300));
+            tokio::time::advance(Duration::from_millis(100)).await;
+            if world().lock().unwrap().stop {
+                break "killed".to_string();
+            }
+            if handle.is_finished() {
+                break match handle.await {
+                    Ok(Ok(())) => "exited".to_string(),
+                    Ok(Err(e)) => format!("exited with error: {e:#}"),
+                    Err(e) => format!("panicked: {e}"),
+                };
+            }
+            // everything relayed and recorded (the write is in the log, nothing is left to submit): stop here
+            {
+                let mut w = world().lock().unwrap();
+                if w.last_file["k"] == "started" && w.last_file["last"].as_u64() == Some(w.head) {
+                    break "done".to_string();
+                }
+                if start.elapsed() > Duration::from_secs(limit_virtual_secs) {
+                    w.kill_next = true;
+                }
+            }
+            // no RPC for another while after time was up: the relayer is idle
+            if start.elapsed() > Duration::from_secs(limit_virtual_secs + 40) {
+                break "time-up-idle".to_string();
+            }
+        }
+    });
+    // the process dies: every task of it is dropped with the runtime
+    drop(rt);
+    outcome
+}
+
 #[test]
-fn smoke() {}
+fn crash_scenarios() {
+    let cases = io::read_cases();
+    let mut out = io::Writer::open();
+    let servers = spawn_servers();
+    let base = PathBuf::from(std::env::var("VERIF_OUT").unwrap()).with_extension("dir");
+    for c in &cases {
+        let dir = base.join(format!("case-{}", c["id"]));
+        let _ = std::fs::remove_dir_all(&dir);
+        std::fs::create_dir_all(&dir).unwrap();
+        let state_path = dir.join("submission-state.json");
+        std::fs::write(&state_path, r#"{"state": "fresh"}"#).unwrap();
+        std::fs::write(
+            dir.join("celestia.key"),
+            "c8076374e2a4a58db1c924e3dafc055e9685481054fe99e58ed67f5c6ed80e62",
+        )
+        .unwrap();
+        {
+            let mut w = world().lock().unwrap();
+            *w = World::default();
+            w.script = c.clone();
+            w.head = c["head"].as_u64().unwrap();
+        }
+        let n_sessions = c["sessions"].as_array().unwrap().len();
+        let mut outcomes = vec![];
+        for s in 0..n_sessions {
+            let sess = &c["sessions"][s];
+            {
+                let mut w = world().lock().unwrap();
+                w.session = s as u64;
+                w.stop = false;
+                w.kill_next = false;
+                w.rpc_counts.clear();
+                if let Some(h) = sess["head"].as_u64() {
+                    w.head = h;
+                }
+                // what a crash between writing the temp file and renaming it leaves behind
+                if sess["tmp_garbage"].as_bool().unwrap_or(false) {
+                    std::fs::write(dir.join("submission-state.json.tmp"), "{\"state\": \"prep").unwrap();
+                }
+                let contents = std::fs::read_to_string(&state_path).unwrap_or_default();
+                w.last_file = file_json(&contents);
+                w.events.push(json!({"ev": "boot", "s": s, "file": file_json(&contents)}));
+            }
+            let limit = sess["limit_secs"].as_u64().unwrap_or(200);
+            let outcome = run_session(&servers, &dir, limit);
+            {
+                // the process is gone.  A write whose rename completed but whose task was never polled again has no
+                // event yet: it did happen before the kill, so it is logged before the crash.
+                let mut w = world().lock().unwrap();
+                let now = file_json(&std::fs::read_to_string(&state_path).unwrap_or_default());
+                if now != w.last_file {
+                    w.last_file = now.clone();
+                    w.events.push(json!({"ev": "file", "file": now, "ok": true, "seen_after_kill": true}));
+                }
+                let reason = if w.stop { w.stop_reason.clone() } else { json!({"at": outcome.clone()}) };
+                w.stop = true;
+                w.events.push(json!({"ev": "crash", "s": s, "reason": reason}));
+                // Celestia goes on after the relayer is gone
+                for i in 0..w.txs.len() {
+                    if w.txs[i].st == "pending" && w.txs[i].include == "on_crash" {
+                        w.include(i);
+                    }
+                }
+            }
+            outcomes.push(outcome);
+        }
+        let w = world().lock().unwrap();
+        let contents = std::fs::read_to_string(&state_path).unwrap_or_default();
+        out.put(&json!({
+            "i": c["id"],
+            "events": w.events,
+            "outcomes": outcomes,
+            "final_file": file_json(&contents),
+            "txs": w.txs.iter().map(|t| json!({"tx": t.hash, "lo": t.lo, "hi": t.hi, "st": t.st})).collect::<Vec<_>>(),
+        }));
+        drop(w);
+        let _ = std::fs::remove_dir_all(&dir);
+    }
+    let _ = std::fs::remove_dir_all(&base);
+}
